@@ -86,7 +86,8 @@ CHECKS = {
                 jobs=lambda t: J("jsonenum", "prod-hsw", ["--prop", "C03"]) + J("jsonenum", "asan-wsm" if t == "thorough" else "prod-wsm", ["--prop", "C03"]),
                 rule="every accepted text: document compared with the reference tree through the public accessors only (type tests, Size, iteration order incl. duplicates, string bytes, number kind and bits, FindMember first match, operator[], AtPointer). Non-trivial: accepted text whose root is a container or longer than 4 bytes."),
     "C10": dict(level="exploration", engine="ondemand",
-                jobs=lambda t: J("ondemand", "prod-hsw", ["--prop", "C10"]) + J("ondemand", "asan-hsw", ["--prop", "C10"]) + J("ondemand", "prod-wsm", ["--prop", "C10"]) + J("ondemand", "prod-dyn", ["--prop", "C10"]),
+                jobs=lambda t: J("ondemand", "prod-hsw", ["--prop", "C10"]) + J("ondemand", "asan-hsw", ["--prop", "C10"]) + J("ondemand", "prod-wsm", ["--prop", "C10"]) + J("ondemand", "prod-dyn", ["--prop", "C10"]) +
+                J("tsanrun", "tsan", ["--only", "TAo_ondemand_in_threads"], env={"TSAN_OPTIONS": "halt_on_error=1:exitcode=66:report_signal_unsafe=0"}, label="tsan/on-demand-in-threads"),
                 budget=dict(quick=300, thorough=3000),
                 rule="differential: for every valid text x pointer path, GetOnDemand succeeds <=> AtPointer on the fully parsed document resolves (and the reference lookup agrees); on success the slice lies inside the input and parses to the identical value, ParseOnDemand yields it; on failure error != 0, slice empty, ParseOnDemand errors and stays null. Evaluations count (text,path) pairs."),
     "C11": dict(level="exploration", engine="ondemand",
@@ -111,6 +112,8 @@ CHECKS = {
                 jobs=lambda t: J("kernels", "prod-hsw", ["--prop", "C09"]) + J("kernels", "prod-wsm", ["--prop", "C09"]) + J("kernels", "asan-hsw", ["--prop", "C09"]) +
                 J("kernels", "asan-dyn", ["--prop", "C09", "--kernel", "sse"], label="asan-dyn/sse-kernel") + J("kernels", "asan-dyn", ["--prop", "C09", "--kernel", "avx2"], label="asan-dyn/avx2-kernel") +
                 J("kernels", "prod-dyn", ["--prop", "C09", "--kernel", "sse"], label="prod-dyn/sse-kernel") + J("kernels", "prod-dyn", ["--prop", "C09", "--kernel", "avx2"], label="prod-dyn/avx2-kernel") +
+                J("serenum", "prod-hsw", ["--only", "T9_fenced_blocks"], label="prod-hsw/serialize-fenced-strings") + J("serenum", "prod-wsm", ["--only", "T9_fenced_blocks"], label="prod-wsm/serialize-fenced-strings") +
+                J("serenum", "prod-dyn", ["--only", "T9_fenced_blocks"], label="prod-dyn/serialize-fenced-strings") +
                 (J("kernels", "asan-wsm", ["--prop", "C09"]) + J("kernels", "prod-dyn", ["--prop", "C09"], label="prod-dyn/dispatched") if t == "thorough" else []),
                 budget=dict(quick=300, thorough=3000),
                 rule="internal::Quote on every length 0..100 with every byte value at every position and two special bytes at all position pairs; output validated byte by byte (verbatim copies, correct escapes, length <= 6n+2); production build: source ending 0..64 bytes before an unmapped page with three different in-page tails (output must not depend on them), destination exactly 6n+35 bytes before an unmapped page; ASan: exact-size heap source and destination."),
